@@ -183,7 +183,15 @@ func (sc *scenario) run() (toks []string, timedOut bool) {
 	var nextVal, nextCloser int64 = int64(n), int64(len(sc.closers) + 1)
 	var nf *ice.VerifNotifier
 	var hp sync.Map // per value perturbation source (handlers of distinct values may run concurrently)
+	// a panic raised by the implementation in a harness-owned call (Enqueue / Close, also when
+	// called from inside a handler) is logged as an observation, it never crashes the harness
+	guard := func() {
+		if r := recover(); r != nil {
+			lg.add("PANIC")
+		}
+	}
 	handler := func(_ int, v int) {
+		defer guard()
 		lg.add("HS" + strconv.Itoa(v))
 		kind, work, stream := hFast, 0, 0
 		if v < n {
@@ -227,6 +235,7 @@ func (sc *scenario) run() (toks []string, timedOut bool) {
 		wg.Add(1)
 		go func() {
 			defer wg.Done()
+			defer guard()
 			p := mk(int64(100 + pi))
 			<-start
 			for _, v := range vals {
@@ -244,6 +253,7 @@ func (sc *scenario) run() (toks []string, timedOut bool) {
 		wg.Add(1)
 		go func() {
 			defer wg.Done()
+			defer guard()
 			p := mk(int64(200 + k))
 			<-start
 			for j := 0; j < cp.delay; j++ {
@@ -271,13 +281,14 @@ func (sc *scenario) run() (toks []string, timedOut bool) {
 	close(start)
 	finished := make(chan struct{})
 	go func() {
+		defer close(finished)
+		defer guard()
 		wg.Wait()
 		// quiescence: a final graceful Close waits for every drainer, which completes the log
 		k := len(sc.closers)
 		lg.add("KC" + strconv.Itoa(k) + "g")
 		nf.Close(true)
 		lg.add("KR" + strconv.Itoa(k))
-		close(finished)
 	}()
 	select {
 	case <-finished:
